@@ -247,8 +247,12 @@ def _retype(v, rtype):
         return v
     a = np.asarray(v, dtype=float)
     if rtype in ("int", "pyint"):
-        if not np.all(np.isfinite(a)) or np.any(np.abs(a) > 2.0 ** 50):
+        if np.any(np.abs(a[np.isfinite(a)]) > 2.0 ** 50):
             return v
+        if not np.all(np.isfinite(a)):
+            # integers where defined (component-wise, so that the values do
+            # not depend on how components are grouped into objects)
+            return np.where(np.isfinite(a), np.rint(a), a)
         r = np.rint(a).astype(np.int64)
         if r.ndim == 0:
             return int(r) if rtype == "pyint" else np.int64(r)
